@@ -131,6 +131,11 @@ def parse_file(path):
                 L['invariant'].append(rest)
                 last = (L['invariant'], len(L['invariant']) - 1)
             continue
+        m = re.match(r'^loop\s+(\d+)\s+anchor\s+([A-Za-z_][A-Za-z0-9_]*)\s*=\s*(.*)$', line)
+        if m:
+            cur.loop(int(m.group(1))).setdefault('anchors', []).append((m.group(2), m.group(3)))
+            last = None
+            continue
         m = re.match(r'^ghost\s+entry\s+(.*)$', line)
         if m:
             check_ghost(m.group(1), where)
@@ -158,21 +163,33 @@ def load_dir(d):
     return allc
 
 
+def ghost_targets(stmts):
+    names = []
+    for st in stmts:
+        for m in re.finditer(r'\b((?:G_|GW_)[A-Za-z0-9_]*)\s*(\[[^\]]*\])?\s*(=|\+=|-=|\|=|\+\+|--)(?!=)', st):
+            if m.group(1) not in names:
+                names.append(m.group(1))
+    return names
+
+
 def fn_clauses(c, extra_ensures=()):
     out = []
     for r in c.requires:
         out.append('__CPROVER_requires(%s)' % r)
     if c.has_assigns:
-        out.append('__CPROVER_assigns(%s)' % ', '.join(c.assigns))
+        gh = list(c.ghost_entry)
+        for v in c.ghost_loop.values():
+            gh += v
+        out.append('__CPROVER_assigns(%s)' % ', '.join(list(c.assigns) + [g for g in ghost_targets(gh) if g not in c.assigns]))
     for e in list(c.ensures) + list(extra_ensures):
         out.append('__CPROVER_ensures(%s)' % e)
     return '\n'.join(out)
 
 
-def loop_clauses(L):
+def loop_clauses(L, ghost=()):
     out = []
     if L['has_assigns']:
-        out.append('__CPROVER_assigns(%s)' % ', '.join(L['assigns']))
+        out.append('__CPROVER_assigns(%s)' % ', '.join(list(L['assigns']) + [g for g in ghost_targets(ghost) if g not in L['assigns']]))
     for i in L['invariant']:
         out.append('__CPROVER_loop_invariant(%s)' % i)
     if L['decreases']:
@@ -202,14 +219,20 @@ def splice(flat, sig, body, contract, with_fn, with_loops, nloops, extra_ensures
         def rep_loop(m):
             n = int(m.group(2))
             if n in c.loops:
-                return loop_clauses(c.loops[n])
+                gh = c.ghost_loop.get((n, 'begin'), []) + c.ghost_loop.get((n, 'end'), [])
+                return loop_clauses(c.loops[n], gh)
             return m.group(0)
         body = re.sub(r'/\*@LOOP (\S+) (\d+)@\*/', rep_loop, body)
 
         def rep_lb(m):
             kind = 'begin' if m.group(1) == 'LOOPBEGIN' else 'end'
             n = int(m.group(3))
-            st = c.ghost_loop.get((n, kind))
+            st = list(c.ghost_loop.get((n, kind), []))
+            if kind == 'begin' and n in c.loops:
+                # anchors: a proven-identity re-assignment of a pointer the loop havocs (keeps CBMC's
+                # points-to sets small); the assertion makes the inserted assignment a no-op
+                for var, ex in c.loops[n].get('anchors', []):
+                    st.insert(0, '__CPROVER_assert(%s == (%s), "anchor %s is the identity"); %s = (%s);' % (var, ex, var, var, ex))
             if st:
                 return ' '.join(st)
             return m.group(0)
@@ -308,6 +331,7 @@ def native_macros(c, params):
     lines = []
     lines.append('#define VF_PRE_%s (%s)' % (c.name, pre))
     snap = ' '.join('__typeof__(%s) VF_OLD_%s_%d = (%s);' % (o, c.name, i, o) for i, o in enumerate(olds))
+    snap += ' ' + ' '.join(c.ghost_entry)
     lines.append('#define VF_SNAP_%s %s' % (c.name, snap))
     post_items = ' '.join('VF_ASSERT(%s, "%s.postcondition.%d");' % (p, c.name, i + 1) for i, p in enumerate(posts))
     post_items = re.sub(r'__CPROVER_(r|w)_ok\(', lambda m: 'VF_%s_OK(' % m.group(1).upper(), post_items)
